@@ -868,6 +868,28 @@ func Build(spec Spec) *Built {
 				fex.Decls = append(fex.Decls, decls...)
 			}
 		}
+		if spec.Hostile {
+			// one type expression that uses TWO annotated types: each of them is due its own once-per-file report
+			var ex []*Type
+			for _, inf := range infos {
+				if exportedName(inf.t.Name) {
+					ex = append(ex, inf.t)
+				}
+			}
+			if len(ex) >= 2 {
+				ftwo := b.NewFile(u, "twotypes.go")
+				for i := 0; i+1 < len(ex); i += 2 {
+					n := b.tstmt("var "+b.d("both")+" map[*%T][]*%T", composite(refT(ex[i], SubVar)), composite(refT(ex[i+1], SubVar)))
+					n.Pre[0].Feature = "two-types-in-one-expression"
+					for _, us := range n.Pre[0].Uses {
+						us.Feature = "two-types-in-one-expression"
+					}
+					n.PkgLevel = true
+					n.Pin = ftwo.Name
+					ftwo.Decls = append(ftwo.Decls, n)
+				}
+			}
+		}
 		if spec.Exotic {
 			b.addExotic(u, infos[0].t, infos[0].env)
 		}
